@@ -67,7 +67,11 @@ def check_format_string(s, named, findings, stats):
         if named:
             name, got = got
         gotpair = (tuple(mo.character for mo in got.modes), tuple(got.ordering))
-        if want in (None, "order") or gotpair != want or (named and name != m.group(1)):
+        if want is None:
+            # accepted although the documented grammar has no such sentence: an extension, not a violation,
+            # as long as it round-trips (checked below)
+            stats["formats accepted beyond the documented grammar"] += 1
+        elif want == "order" or gotpair != want or (named and name != m.group(1)):
             findings.append(_f("format-acceptance", f"{s!r} parsed to {gotpair} but the grammar says {want}",
                                {"text": s, "named": named}))
             return
